@@ -57,6 +57,12 @@ func (w *slowWriter) Write(p []byte) (int, error) {
 			return 0, fmt.Errorf("injected writer failure #%d: %w", n, io.EOF)
 		}
 		return 0, fmt.Errorf("injected writer failure #%d", n)
+	case "panic":
+		// the writer itself breaks (a nil dereference in a custom writer); callers that guard their nodes recover
+		c.res = "panic"
+		c.data = nil
+		w.calls = append(w.calls, c)
+		panic(fmt.Sprintf("injected writer panic #%d", n))
 	case "short":
 		k := len(p) / 2
 		w.buf = append(w.buf, p[:k]...)
@@ -91,7 +97,7 @@ func runWriterSink(rc *RunCtx) {
 	}
 	nFaults := tp.Choose(4, "nfaults")
 	for i := 0; i < nFaults; i++ {
-		w.plan[1+tp.Choose(nTasks*2, "faultcall")] = []string{"fail", "short"}[tp.Choose(2, "faultkind")]
+		w.plan[1+tp.Choose(nTasks*2, "faultcall")] = []string{"fail", "short", "fail", "short", "panic"}[tp.Choose(5, "faultkind")]
 	}
 	type wev struct {
 		id       int
@@ -125,7 +131,19 @@ func runWriterSink(rc *RunCtx) {
 				simrt.Yield("proc:step")
 				ev := &el.Event{Type: "t", Formatted: e.formats}
 				e.task = simrt.TaskID()
-				e.out, e.err = sink.Process(context.Background(), ev)
+				func() {
+					defer func() {
+						if r := recover(); r != nil {
+							if !strings.HasPrefix(fmt.Sprint(r), "injected writer panic") {
+								panic(r)
+							}
+							// nothing was delivered, the caller knows it: the sink must stay usable for the next event
+							e.out, e.err = nil, fmt.Errorf("Process panicked: %v", r)
+							simrt.Probe("writer.panicked")
+						}
+					}()
+					e.out, e.err = sink.Process(context.Background(), ev)
+				}()
 				e.returned = true
 			}
 		})
